@@ -284,6 +284,14 @@ class Builder:
             if kind == "vt":
                 return Named(lambda m: get(expr, m, default=None, trace=self.tracer), lab)
             return Named(lambda m: get(expr, m), lab)
+        if k == "nb2":
+            e1 = self.steps(p[1], depth=depth + 1)
+            e2 = self.steps(p[2], depth=depth + 1)
+
+            def hop(m):
+                r = get_match(e1, m, must_match=False)
+                return None if r is None else get(e2, r, default=None)
+            return Named(hop, "nb2:" + str(e1) + ">" + str(e2))
         if k == "below2":
             # as `below`, but the predicate looks at its Match *after* the nested search that went through
             # the same filter step (the same PredicateVertex object) has returned
